@@ -62,9 +62,10 @@ def perturb_one(rng, dev: dict, used_ids: set) -> tuple[dict, dict]:
     elif p == "min_duration":
         c[p] = gen.pick(rng, gen.MIN_DURS)
     elif p == "mod_bandwidth":
-        if c.get("eom"):
+        pool = [b for b in gen.BWS if b is not None and (not c.get("eom") or b <= c["eom"]["mod_bandwidth"])]
+        if not pool:
             return d2, {}
-        c[p] = gen.pick(rng, [b for b in gen.BWS if b is not None])
+        c[p] = gen.pick(rng, pool)  # (an EOM's bandwidth is never below its channel's)
     elif p == "custom_phase_jump_time":
         c[p] = gen.pick(rng, [0, 13, 100, 40])
     else:
@@ -264,7 +265,7 @@ def param_switch(ctx, rng, dev, D2, reg, ops, changed, case) -> None:
         only_slm = slm is not None and all(x.startswith(f"{slm}[") and "pulse samples differ" in x for x in d)
         mech = "strict-differs:slm-mask-dmm-pulse" if only_slm else \
             "strict-param-differs:" + "+".join(sorted({p for ps in changed.values() for p in ps if p in TIMING}) or ["other"])
-        if mech == "strict-param-differs:eom" and not any("slots:" in x or "vs (" in x for x in d):
+        if mech == "strict-param-differs:eom" and not any(" slots: " in x or "]: ('" in x for x in d):
             # which part of the EOM configuration differs (timeline identical, only samples / off-detuning)
             for cid, ps in changed.items():
                 oc = next((c for c in dev["channels"] if c.get("id") == cid), None)
@@ -280,8 +281,12 @@ def param_switch(ctx, rng, dev, D2, reg, ops, changed, case) -> None:
 
 def run_case(ctx, idx, rng, tier):
     dev = gen.gen_device(rng, p_builtin=0.0, p_physical=0.25, xy=rng.random() < 0.1, max_seq=0.1, want_eom=0.6)
+    for c in dev.get("channels", []):
+        # (a custom phase-jump time decouples it from the bandwidth, so that a bandwidth can differ on its own)
+        if c.get("mod_bandwidth") and "custom_phase_jump_time" not in c and rng.random() < 0.5:
+            c["custom_phase_jump_time"] = gen.pick(rng, [0, 40, 100])
     reg = gen.gen_register(rng, dev, nmin=1 if rng.random() < 0.3 else 2, nmax=4, kind="reg")
-    ops, r = concrete_program(ctx, rng, dev, reg, weights=WEIGHTS, motifs={"retarget": 0.4, "drift": 0.2})
+    ops, r = concrete_program(ctx, rng, dev, reg, weights=WEIGHTS, motifs={"retarget": 0.4, "drift": 0.2, "dmm-twice": 0.7})
     if ops is None:
         ctx.count("discarded_after_C09")
         return
@@ -300,6 +305,12 @@ def run_case(ctx, idx, rng, tier):
     seq = r.seq
     base = snapshot(seq)
     used_ids = {c["id"] for c in base["chans"].values()}
+    # switch_device tries every assignment of the declared channels to the new device's channels (|new|^|declared|):
+    # a performance matter outside this property; such cases are set aside instead of running into the watchdog
+    n_new = len(D2.channels) + len(D2.dmm_channels)
+    if n_new ** max(1, len(base["chans"])) > 300000:
+        ctx.count("switch_skipped_combinatorial_matching")
+        return
     timing_changed = any(p in TIMING for cid, ps in changed.items() if cid in used_ids or cid.replace("_x", "") in used_ids
                          for p in ps)
     for strict in (True, False):
